@@ -144,18 +144,35 @@ func submitLoop(l *goz.Limiter, w *world, bodies []func()) {
 	atomic.StoreInt32(&w.submitterDone, 1)
 }
 
-// goroutineState inspects a dump of all goroutines: is the goroutine running submitLoop parked in a
-// channel send, and how many worker goroutines of the Limiter (frames of goz.Recover) are still alive.
-func goroutineState() (submitterInSend bool, workers int) {
+// goroutineState inspects a dump of all goroutines. For every goroutine that has a frame of package goz
+// (the Limiter's workers, the submitter while inside Limiter.Go, the goroutine calling Wait) it looks at the
+// scheduler state in the header: parked goroutines ("chan send", "chan receive", "semacquire", "select",
+// "sync.WaitGroup.Wait") cannot move unless somebody else acts; anything else is still running.
+type gstate struct {
+	submitterInSend bool // the goroutine running submitLoop is parked in a channel send
+	moving          int  // goz goroutines that are running or runnable
+	workersInSend   int  // worker goroutines parked in a channel send (waiting for a slot inside the worker)
+}
+
+func goroutineState() (st gstate) {
 	buf := make([]byte, 1<<18)
 	n := runtime.Stack(buf, true)
 	for _, g := range strings.Split(string(buf[:n]), "\n\n") {
-		if strings.Contains(g, "c19.submitLoop") {
-			head := g[:strings.IndexByte(g+"\n", '\n')]
-			submitterInSend = strings.Contains(head, "[chan send")
+		if !strings.Contains(g, "golib/goz.") {
+			continue
 		}
-		if strings.Contains(g, "goz.Recover(") {
-			workers++
+		head := g[:strings.IndexByte(g+"\n", '\n')]
+		parked := false
+		for _, w := range []string{"[chan send", "[chan receive", "[semacquire", "[select", "[sync.WaitGroup.Wait", "[sync.Mutex.Lock"} {
+			parked = parked || strings.Contains(head, w)
+		}
+		if strings.Contains(g, "c19.submitLoop") {
+			st.submitterInSend = strings.Contains(head, "[chan send")
+		} else if strings.Contains(head, "[chan send") {
+			st.workersInSend++
+		}
+		if !parked {
+			st.moving++
 		}
 	}
 	return
@@ -178,15 +195,16 @@ func (w *world) waitQuiescent(total int) (submitterBlocked bool, err error) {
 				waking = true
 			}
 		}
-		if !waking && started == submitted && started == finished+blocked {
-			if done {
-				return false, nil
-			}
-			// a function that has returned may still be giving its slot back: the state is only final when
-			// the only live worker goroutines are the ones parked on a gate
-			if inSend, workers := goroutineState(); inSend && workers == int(blocked) {
-				// re-read: nothing may have moved in between
-				if atomic.LoadInt32(&w.started) == started && atomic.LoadInt32(&w.finished) == finished && atomic.LoadInt32(&w.blocked) == blocked && atomic.LoadInt32(&w.submitted) == submitted {
+		if !waking && started == finished+blocked {
+			// final only if no goroutine of the Limiter can still move on its own: functions that have
+			// returned may still be giving their slot back, launched functions may not have started yet
+			gs := goroutineState()
+			stable := atomic.LoadInt32(&w.started) == started && atomic.LoadInt32(&w.finished) == finished && atomic.LoadInt32(&w.blocked) == blocked && atomic.LoadInt32(&w.submitted) == submitted
+			if gs.moving == 0 && stable {
+				if done && atomic.LoadInt32(&w.submitterDone) == 1 {
+					return false, nil
+				}
+				if gs.submitterInSend {
 					return true, nil
 				}
 			}
@@ -236,10 +254,23 @@ func run(c limCase, r *pb.Rec) error {
 	order := append([]int(nil), c.Order...)
 	closed := map[int]bool{}
 	saturated := false
+	var waitReturned int32
+	waitDone := make(chan struct{})
+	waitStarted := false
 	for {
 		blockedSub, err := w.waitQuiescent(len(c.Tasks))
 		if err != nil {
 			return err
+		}
+		if !waitStarted && atomic.LoadInt32(&w.submitterDone) == 1 {
+			// every Go call has returned: from now on Wait() must block until all functions have finished
+			waitStarted = true
+			go func() { l.Wait(); atomic.StoreInt32(&waitReturned, 1); close(waitDone) }()
+		}
+		if atomic.LoadInt32(&waitReturned) == 1 {
+			if f := atomic.LoadInt32(&w.finished); int(f) != len(c.Tasks) {
+				return fmt.Errorf("Wait() returned with %d of %d functions finished", f, len(c.Tasks))
+			}
 		}
 		if blockedSub {
 			// the submitter waits for a slot while nothing runs: every slot must be held by a parked task
@@ -266,8 +297,9 @@ func run(c limCase, r *pb.Rec) error {
 		atomic.StoreInt32(&w.opened[next], 1)
 		close(w.gates[next])
 	}
-	waitDone := make(chan struct{})
-	go func() { l.Wait(); close(waitDone) }()
+	if !waitStarted {
+		go func() { l.Wait(); atomic.StoreInt32(&waitReturned, 1); close(waitDone) }()
+	}
 	select {
 	case <-waitDone:
 	case <-time.After(20 * time.Second):
@@ -314,10 +346,10 @@ func run(c limCase, r *pb.Rec) error {
 		atomic.StoreInt32(&w.opened[base+i], 1)
 		close(w.gates[base+i])
 	}
-	waitDone = make(chan struct{})
-	go func() { l.Wait(); close(waitDone) }()
+	waitDone2 := make(chan struct{})
+	go func() { l.Wait(); close(waitDone2) }()
 	select {
-	case <-waitDone:
+	case <-waitDone2:
 	case <-time.After(20 * time.Second):
 		return inconclusive{"second Wait() did not return within 20s"}
 	}
